@@ -121,6 +121,7 @@ class Interp:
         self.prune = prune
         self.enum_cache: Dict[str, List[EnumVal]] = {}
         self.fork_cache = {}
+        self.valid_cache = {}
         self.reset([])
         from . import ghost_sym, loops
         self.natives = ghost_sym.natives(self)
@@ -509,12 +510,15 @@ class Interp:
         """if/else executed on both sides and merged with ite (used inside per-element loop bodies: no forks)"""
         base = dict(env.vars)
         nw = len(self.writes)
-        self.exec_block(st.body, env)
-        then_vars = dict(env.vars)
-        env.vars.clear()
-        env.vars.update(base)
-        self.exec_block(st.orelse, env)
-        else_vars = dict(env.vars)
+        try:
+            self.exec_block(st.body, env)
+            then_vars = dict(env.vars)
+            env.vars.clear()
+            env.vars.update(base)
+            self.exec_block(st.orelse, env)
+            else_vars = dict(env.vars)
+        except (PyRaise, _Return, _Break, _Continue):
+            raise Unsupported('raise / return / break inside a branch of a per-element (merged) evaluation')
         if len(self.writes) != nw:
             raise Unsupported('heap write inside a merged branch')
         merged = {}
@@ -1137,6 +1141,14 @@ class Interp:
         raise Unsupported(f'ordering on {type(a).__name__}, {type(b).__name__}')
 
     def contains(self, container, x):
+        from .values import SPredSet
+        if isinstance(container, SPredSet):
+            return container.fn(x)
+        if isinstance(container, GList):
+            acc = False
+            for g, y in container.items:
+                acc = _or(acc, _and(g, self.equals(x, y)))
+            return acc
         if isinstance(container, SSet):
             if isinstance(x, EnumVal):
                 return container.bits.get(x, False) if x.cls is container.cls else False
@@ -1717,6 +1729,11 @@ class Interp:
         return self.run_body(f.node.body, env, f)
 
     def call_closure(self, c: Closure, args, kwargs):
+        if self.registry is not None and self.modular and c.name != '<lambda>' and c.env.func is not None:
+            qual = f'{c.env.func.qualname}.<locals>.{c.name}'
+            ci = self.registry.for_call(qual)
+            if ci is not None:
+                return self.registry.apply_closure_contract(self, ci, c, args, kwargs)
         env = Env(c.module, c.cls, c.env.func, c.env)
         if isinstance(c.node, ast.Lambda):
             self.bind_params(c.node, args, kwargs, env, c.env)
